@@ -201,7 +201,7 @@ def merge_rules(stats):
             out[k] = out.get(k, 0) + v
     return out
 
-def grammar_check(ctx, cats, n_quick, n_thorough, opts, evals=EVALS, invs=None, level="model_checking", extra_cov=None, profiles=("debug", "release"), lexer=None, sem=None, compose=None):
+def grammar_check(ctx, cats, n_quick, n_thorough, opts, evals=EVALS, invs=None, level="model_checking", extra_cov=None, profiles=("debug", "release"), lexer=None, sem=None, compose=None, extra_jobs=None):
     prop = ctx.prop
     opt0 = opts[0] if isinstance(opts, list) else opts
     invs = invs if invs is not None else GRAMMAR_INV.get(prop, [])
@@ -233,6 +233,8 @@ def grammar_check(ctx, cats, n_quick, n_thorough, opts, evals=EVALS, invs=None, 
             sel = {k: r for k, r in models.items() if not po.get("only_models") or any(k.startswith(x) or r.get("e") == x for x in po["only_models"])}
             js = replay_jobs(ctx, binary, "%s_p%d" % (profile, pi), sel, dict(po, profile=profile))
             jobs += js
+        if extra_jobs:
+            jobs += extra_jobs(profile)
         incidents = []
         for i in range(0, len(jobs), 16):
             incidents += vlib.supervise(binary, jobs[i:i + 16])
@@ -251,7 +253,7 @@ def grammar_check(ctx, cats, n_quick, n_thorough, opts, evals=EVALS, invs=None, 
     if others:
         log("findings of other categories (reported by their own checks): %s" % others)
     # direction B
-    tv = trace_validate(ctx, [j for j in os.listdir(ctx.wd) if j.startswith("events_")])
+    tv = trace_validate(ctx, [j for j in os.listdir(ctx.wd) if j.startswith("events_")], cap=16000 if ctx.quick() else 40000)
     nviol = vlib.report(prop, mine)
     for e, inv in spec_viol:
         print("VIOLATION property=%s replay=%s" % (prop, models[e]["log"]))
@@ -386,13 +388,16 @@ def trace_validate(ctx, event_files, cap=40000, chunk=4000, par=8, reset_between
     return {"events": n, "rejections": findings, "totals": totals}
 
 # ----------------------------------------------------------------------------------------------- checks
+def nested_agg_jobs(ctx):
+    return lambda profile: [base_job(ctx, "agg", "%s_nested_%s" % (profile, e), profile, nested_e=e, event_every=100, event_cap=500) for e in ["i64", "f64", "dec", "num"]]
+
 def c01(ctx):
     q = ctx.quick()
-    return grammar_check(ctx, {"panic", "abort"}, {"*": 4}, {"*": 6, "f64": 6},
+    return grammar_check(ctx, {"panic", "abort"}, {"*": 4}, {"*": 6, "f64": 6}, extra_jobs=nested_agg_jobs(ctx), opts=
                          [{"assignments": 2, "full_placeholders": True, "event_every": 50, "event_cap": 2000, "reject_suffixes": 2},
                           {"assignments": 1, "boundary_pool": True, "full_placeholders": True, "max_assign": 200 if q else 4000, "event_every": 500, "event_cap": 1000, "compose_assign": 6 if q else 40}],
                          invs=[], lexer={"alphabets": ["lit", "kw1", "kw2", "kw3", "ops"], "k_quick": 3, "k_thorough": 5},
-                         compose={"quick": (3, 3), "thorough": (4, 4), "chains": {"quick": (6, 14, 100), "thorough": (150, 20, 110)}})
+                         compose={"quick": (3, 3), "thorough": (4, 4), "chains": {"quick": (4, 14, 100), "thorough": (150, 20, 110)}})
 
 def c03(ctx):
     return grammar_check(ctx, {"ok_on_reject", "err_on_defined"}, {"*": 5}, {"*": 6, "f64": 7}, {"assignments": 2, "event_every": 100, "event_cap": 2000, "nontrivial_min_ops": 1, "reject_suffixes": 2},
@@ -514,6 +519,7 @@ def c11(ctx):
     semr = semantic_models(ctx, 6 if ctx.quick() else 8)
     def jobs(profile):
         js = [base_job(ctx, "agg", "%s_vec_%d" % (profile, s), profile, beh=beh, shard=s, nshards=4) for s in range(4)]
+        js += nested_agg_jobs(ctx)(profile)
         for e in ["i64", "f64", "dec", "num"]:
             js.append(base_job(ctx, "agg", "%s_bnd_%s" % (profile, e), profile, boundary_e=e, exhaustive_len=2 if ctx.quick() else 3,
                                random_lists=300 if ctx.quick() else 20000, event_every=200))
